@@ -199,6 +199,42 @@ func lexExtras(c *Ctx, nRandom int, f func(s string)) {
 	for _, s := range []string{"/**/", "/*/", "/*/*/", "/* */ */", "/*", "/* ", "/*\n*/", "/* -- */", "--", "-- /*", "--\n", "#", "#\n#", "//", "// x\n/", "/ /", "- -", "a--b", "a-- b\nc", "a//b", "a/ /b", "a#b\nc", "a/*b*/c", "a /*b*/ /*c*/ d", "/*a*//*b*/", "/***/", "/**/*/", "/*/ */", "--/*\n*/", "/*--*/", "'/*'", "\"--\"", "`#`", "a./*c*/b", "a. --c\n b", "1/*c*/.5", "a/**/.5", "a.\n5", "a . 5", "a.5 .6", "a.b.1e5.0x", "a.`b`.c", "a.select", "a.SELECT.from", "a. select", "(a).1", "f().x", "a[0].1", "@p.1", "?.1", "? .x", "NULL.1", "1.x", "select.x", "select.1", "END.x", "*.1", ". 1", ".a", "..a", "a..b", "a...b", "a.b..c"} {
 		emit(s)
 	}
+	// every byte value between two tokens, with and without blanks around it
+	for b := 0; b < 256; b++ {
+		x := string([]byte{byte(b)})
+		for _, f := range []string{"a%sb", "a %sb", "a%s b", "a %s b", "1\n%s2", "(%s)", "a.%sb", "'%s'", "`%s`", "/*%s*/x", "--%s\nx", "%s", " %s", "%s "} {
+			emit(strings.ReplaceAll(f, "%s", x))
+		}
+	}
+	// every code point written as a \u / \U escape in a string, and the 4-digit ones in a quoted identifier
+	for cp := 0; cp <= 0x110000; cp++ {
+		if cp <= 0xFFFF {
+			emit(fmt.Sprintf("'\\u%04x'", cp))
+			if cp%7 == 0 {
+				emit(fmt.Sprintf("`\\u%04X`", cp))
+				emit(fmt.Sprintf("b'\\u%04x'", cp))
+			}
+		}
+		if cp <= 0xFFFF || cp%97 == 0 || cp >= 0x10FFF0 {
+			emit(fmt.Sprintf("\"\\U%08x\"", cp))
+		}
+	}
+	c.Res.Exhaustive["all_\\uXXXX_escapes_and_all_BMP_\\UXXXXXXXX_escapes"] = true
+	// sentences of grammar G under hostile quoting / trivia (every literal and identifier spelling the renderer knows)
+	{
+		set, _, _ := gen.SystematicSet()
+		rr := gen.NewRand(c.Seed, 1350)
+		for _, s := range set {
+			for k := 0; k < 3; k++ {
+				emit(gen.Render(rr, s, gen.RenderOpts{Trivia: 2, Case: 3, Quote: 1}))
+			}
+		}
+		g := gen.NewG(rr)
+		for i := 0; i < nRandom/40; i++ {
+			s := g.Generate(gen.StartSymbols[rr.IntN(len(gen.StartSymbols))], 4+rr.IntN(8))
+			emit(gen.Render(rr, s, gen.RenderOpts{Trivia: rr.IntN(3), Case: rr.IntN(4), Quote: 1}))
+		}
+	}
 	// corpus files are real token streams
 	if cs, err := gen.LoadCorpus(c.CorpusDir()); err == nil {
 		for _, cc := range cs {
